@@ -16,6 +16,7 @@ const preludeBase = `(set-logic ALL)
 (declare-fun typeof (Val) Int)
 (declare-fun tmd (Int Int) Str)
 (declare-fun fsread (Str) Str)
+(declare-fun rv_deepnan (Val) Bool)
 (declare-fun nil_val () Val)
 (assert (= (typeof nil_val) 0))
 (assert (forall ((v Val)) (! (=> (= (typeof v) 0) (= v nil_val)) :pattern ((typeof v)))))
@@ -32,8 +33,10 @@ const preludeBase = `(set-logic ALL)
 (declare-fun pl_len (Val) Int)
 (declare-fun pl_elem (Val Int) Val)
 (declare-fun pl_ptr (Val) Int)
-(assert (forall ((v Val)) (! (>= (pl_len v) 0) :pattern ((pl_len v)))))
 (declare-fun tcomparable (Int) Bool)
+(assert (tcomparable 0))
+(assert (forall ((t Int)) (! (=> (or (and (<= 1 (kindof t)) (<= (kindof t) 16)) (= (kindof t) 18) (= (kindof t) 22) (= (kindof t) 24) (= (kindof t) 26)) (tcomparable t)) :pattern ((tcomparable t)))))
+(assert (forall ((t Int)) (! (=> (or (= (kindof t) 19) (= (kindof t) 21) (= (kindof t) 23)) (not (tcomparable t))) :pattern ((tcomparable t)))))
 (declare-fun telem (Int) Int)
 (declare-fun tkey (Int) Int)
 ; ---- integer helpers --------------------------------------------------------
